@@ -63,7 +63,37 @@ var machComponents = map[string]string{
 	"block copy (builtin copy on slices)":              "stub: verif/simrt.Copy, two-phase with a yield between",
 }
 
+var trImports = map[string]string{
+	"sync":                           "verif/simsync",
+	"golang.org/x/tools/go/packages": "verif/simpackages",
+	"time":                           "verif/simtime",
+	"math/rand":                      "verif/simrand",
+}
+
+func trRewrites() []RewriteSpec {
+	opt := rewrite.Options{Imports: trImports, Yields: true, FuncEntryOnly: true, GoStmt: true, MapRange: true}
+	return []RewriteSpec{
+		{Dir: "", Opt: opt},
+		{Dir: "internal/coq", Opt: opt},
+	}
+}
+
 var specs = map[string]*Spec{
+	"C06": {
+		ID: "C06", Title: "Translation is deterministic and packages do not influence each other",
+		Driver: "./drivers/c06drv", ModFile: "go.mod",
+		Rewrites: trRewrites(), Flavours: []string{"plain", "race"},
+		Quick:    TierParams{Runs: 1600, RaceRuns: 160, Budget: 6 * time.Minute},
+		Thorough: TierParams{Budget: 20 * time.Minute},
+		Level:    "exploration",
+		Rule: "each plan is one TranslatePackages invocation: 1-9 package patterns (subset, order and repetition drawn from the seed) out of /repo's 13 example packages or out of a scratch module holding every file of testdata/negative-tests as its own (failing) package plus copies of three example packages, a flag combination (TypeCheck, AddSourceFileComments, SkipInterfaces), a scheduling strategy for the per-package worker goroutines (uniform / sticky / PCT, yield at every function entry of the translator and printer) and a permutation for every map range. " +
+			"Oracle: for every package byte-identical file text and identical error string compared with a golden translation of that package alone on the sequential schedule, in the slot of that package; no panic, no deadlock; in the -race build no race report. " +
+			"Non-trivial: at least two packages were co-translated and their workers were actually interleaved (more context switches than workers); distinct = distinct event-log fingerprints among those.",
+		Components: map[string]string{"goose.go types.go idents.go errors.go interface.go internal/coq/coq.go": "real (compiled from /repo's working tree, yields at function entries, go statement and map ranges routed through the simulator)",
+			"go/packages loader (go list, parser, type checker)": "real, memoised per (module, pattern): runs before the workers start and is not part of the concurrency", "sync.WaitGroup, goroutine scheduling, map iteration order, time, math/rand": "stub: verif/simsync, simrt, simtime, simrand"},
+		Assumptions:  []string{"nondeterminism inside go list or the type checker is outside /repo and not explored (loaded once per pattern)", "cmd/goose's own main function is not in the loop; TranslatePackages is driven through the library API"},
+		ExpectProbes: []string{"workers_interleaved", "package_with_errors"},
+	},
 	"C09": {
 		ID: "C09", Title: "Disks are arrays of independent 4096-byte registers; Mem == File",
 		Driver: "./drivers/machdrv", ModFile: "go.mod",
